@@ -50,7 +50,16 @@ type mdGen struct {
 	hard  bool // escapes, entities, autolinks, nested emphasis
 }
 
-func (g *mdGen) word() string { return mdWords[g.r.intn(len(mdWords))] }
+// mdLongWords: words of many multi-byte characters (more bytes than runes: a limit counted in one and cut in the other)
+var mdLongWords = []string{"标题文字很长的一个词语需要超过限制", "Заголовокоченьдлинныйтекст", "見出しの文字列がとても長い場合の確認用", "ÄÖÜäöüßÄÖÜäöüßÄÖÜäöüßÄÖÜ"}
+
+func (g *mdGen) word() string {
+	if g.r.chance(4) {
+		g.feats["long multi-byte word"]++
+		return mdLongWords[g.r.intn(len(mdLongWords))]
+	}
+	return mdWords[g.r.intn(len(mdWords))]
+}
 
 func (g *mdGen) inlines(n int, allowBreak bool) []mdInline {
 	var out []mdInline
